@@ -65,17 +65,20 @@ PROPS = {
         assumptions=["position() has not wrapped around 2^64", "chunk sizes >= 1",
                      "source obeys the std::io::Read contract (lying sources are C14's subject)"]),
     "C14": dict(
-        module="Flussab.Props.C14", engines=[("reader", 3000, 100000, "lies")], release=True,
+        module="Flussab.Props.C14", engines=[("reader", 3000, 100000, "lies"), ("writer", 300, 4000, "")], release=True,
         claim="The index discipline every unsafe block of the reader relies on (pos_in_buf + valid_len <= buf.len, "
               "so buf()/get_unchecked/8-byte loads stay inside the buffer) is the invariant Reader.Ok, proved to "
               "hold after every call of the safe API for EVERY source - lying Ok(n) > slice included - and across "
               "caught panics (op_preserves_ok, history_preserves_ok); a panicking advance is a no-op "
               "(advance_panic_is_noop, the statement defect F14 broke); a lying read is caught before the window "
               "changes (lying_read_leaves_window); every exposed byte was read from the source (window_was_read). "
-              "Tie: reader engine with over-long advances under catch_unwind and lying sources, debug and release.",
+              "Writer: len <= capacity after every op for every sink, panicking sinks included "
+              "(writer_len_le_capacity, writer_history_len_le_capacity), which is what copy_from_nonoverlapping, "
+              "set_len and the in-place digit writer rely on. "
+              "Tie: reader engine with over-long advances under catch_unwind and lying sources, writer engine with "
+              "panicking sinks, debug and release.",
         note="Proof level for the model's index arithmetic only: that the compiled unsafe code has no UB given this "
-             "discipline (machine-level memory safety) is outside Lean; the writer half (len <= cap) is claimed "
-             "under C11's model once registered. Trusted: Lean kernel, harness.",
+             "discipline (machine-level memory safety) is outside Lean. Trusted: Lean kernel, harness.",
         assumptions=["chunk >= 1", "position() not wrapped"]),
     "C09": dict(
         module="Flussab.Props.C09", engines=[("reader", 4000, 150000, "")],
@@ -134,4 +137,21 @@ PROPS = {
              "of narrow literal types, symbols and comment are not modelled. Ill-formedness only in gates unreachable "
              "under trim=true is not an error (code, model and oracle agree).",
         assumptions=["literal codes fit the literal type"]),
+    "C11": dict(
+        module="Flussab.Props.C11", engines=[("writer", 500, 8000, "")], release=True,
+        claim="DeferredWriter (fast path, cold path with split/fill/flush/write-through, flush, check_io_error, Drop "
+              "with the panicked flag, buf_write_ptr+advance_unchecked, write::text::ascii_digits with itoap MAX_LEN) "
+              "is modelled over a sink with arbitrary schedules and std's write_all loop. Theorems for all histories: "
+              "good_sink_exact (a never-failing sink receives exactly buffered ++ written, in order, once, after flush "
+              "or drop; flush returns Ok), bad_sink_selection (with any failing sink what the sink received plus what "
+              "is buffered is a sub-sequence of the written stream), writes_never_fail, no_sink_call_while_parked, "
+              "error_reported_once, digits_canonical + digits_fit (canonical decimal text, never longer than MAX_LEN). "
+              "Tie: writer engine compares the sink call log (length offered/accepted per call), results and the "
+              "sunk bytes; oracle = reference Vec of everything written.",
+        note="Trusted: Lean kernel, harness, std::io::Write::write_all's documented loop, Vec::with_capacity giving "
+             "exactly the requested capacity (the call-size log depends on it). itoap's digit generation is modelled "
+             "as canonical decimal text and validated by the engine at MIN/-1/0/10^k/MAX for all 12 types. Sinks "
+             "that panic are outside C11's domain (the buffer is then re-sent by a later flush, as in std's BufWriter); "
+             "they are covered by C14's length invariant only.",
+        assumptions=["the sink obeys the Write contract (accepts at most the slice length)"]),
 }
